@@ -385,8 +385,8 @@ def judge(prop, case, acc):
         if rt is None:
             continue
         for k, v in (t.get('attrs') or {}).items():
-            if rt.to_dict().get(k) != v:
-                viol('C06', 'custom-attribute-lost', f'task {t["id"]} attr {k}: {rt.to_dict().get(k)!r} != {v!r}')
+            if getattr(rt, k, None) != v:
+                viol('C06', 'custom-attribute-lost', f'task {t["id"]} attr {k}: {getattr(rt, k, None)!r} != {v!r}')
         if rt.start is None or rt.end is None:
             viol('C06', 'task-without-dates', f'task {t["id"]} start={rt.start} end={rt.end}')
     if any(v[0] == 'C06' and 'without-dates' in v[1] for v in V) or len(T) != c.n or -1 in T:
